@@ -188,3 +188,6 @@ def run(P, R, tier):
         if P.func(k_, required=False) is not None:
             n_opt += _opt.check_function(P, R, k_)
     R.floor("OPT optional-factor selections", n_opt, 6)
+
+
+EXPLANATION += " Also: the posterior precision of the probe's channel factor (identity + count-weighted U' Sigma^-1 U, counts multiplying, variances dividing), (OPT) optional factors, pooling of multi-statistics probes also inside helpers."
